@@ -1,4 +1,5 @@
+import os
 import sys
-if '--version' in sys.argv:
-    print('1.11.1'); sys.exit(0)
-sys.exit(1)
+sys.path.insert(0, os.path.dirname(os.path.dirname(os.path.abspath(__file__))))
+from vf import mininja  # noqa: E402
+sys.exit(mininja.main(sys.argv[1:]))
